@@ -43,7 +43,7 @@ type Conn struct {
 	wrExpired bool
 	rdArmed   bool
 	wrArmed   bool
-	Cap       int  // capacity of the *peer's* inbox as seen by Write (0 = unbounded)
+	Cap       int  // capacity of the *peer's* inbox as seen by Write (0 = unbounded, <0 = full from the start: every Write blocks)
 	Coalesce  bool // bytes arriving at this end while earlier bytes are still unread join the last unread segment (the network merged them)
 	WriteErr  error
 	// recording
@@ -117,7 +117,7 @@ func (c *Conn) Read(b []byte) (int, error) {
 
 func (c *Conn) writable() bool {
 	p := c.peer
-	return c.closed || c.wrExpired || p.closed || c.Cap == 0 || p.inBytes < c.Cap
+	return c.closed || c.wrExpired || p.closed || c.Cap == 0 || (c.Cap > 0 && p.inBytes < c.Cap)
 }
 
 func (c *Conn) Write(b []byte) (int, error) {
